@@ -52,6 +52,13 @@ type c18Req struct {
 	hasStart  bool
 	immediate bool
 
+	// aux: the publisher runs with the harness aux sweeper. extraVal is
+	// the value of the extra output that sweeper adds when at least one
+	// input of the request carries a resolution blob (generated facts:
+	// c18Input.blob).
+	aux      bool
+	extraVal int64
+
 	// Derived from the model.
 	weight int64
 	sumIn  int64
@@ -82,6 +89,38 @@ type c18Req struct {
 	beatTouched bool
 	// rampChecked: the <=1-block obligation was evaluated once.
 	rampChecked bool
+}
+
+// nBlob counts the inputs of the request that carry a resolution blob.
+func (r *c18Req) nBlob() int {
+	n := 0
+	for _, m := range r.ins {
+		if m.blob {
+			n++
+		}
+	}
+
+	return n
+}
+
+// hasExtra is the reference for "the sweep transaction has the aux sweeper's
+// extra output": an aux sweeper is configured and ANY input carries a blob.
+func (r *c18Req) hasExtra() bool {
+	return r.aux && r.nBlob() > 0
+}
+
+// auxClass labels the cell of the aux mode the request falls into.
+func (r *c18Req) auxClass() string {
+	switch n := r.nBlob(); {
+	case !r.aux:
+		return "aux:off"
+	case n == 0:
+		return "aux:no_blob"
+	case n == len(r.ins):
+		return "aux:all_blob"
+	default:
+		return "aux:mixed"
+	}
 }
 
 // Mempool / publish response codes.
@@ -134,6 +173,9 @@ type c18Wallet struct {
 	check      func(r *c18Req, tx *wire.MsgTx, stage string) error
 	violations []string
 	utxos      []*lnwallet.Utxo
+	// aux, if set, is the aux sweeper of the publisher: every transaction
+	// handed to PublishTransaction must have been announced to it.
+	aux *c18Aux
 }
 
 func (w *c18Wallet) reqFor(tx *wire.MsgTx) *c18Req {
@@ -213,6 +255,11 @@ func (w *c18Wallet) PublishTransaction(tx *wire.MsgTx, _ string) error {
 		tx: tx.Copy(), fee: fee, height: w.height(),
 		accepted: code == c18RespOK,
 	})
+	if w.aux != nil && r.aux {
+		if err := c18CheckAuxNote(w.aux, r, tx, fee); err != nil {
+			w.violations = append(w.violations, err.Error())
+		}
+	}
 
 	return c18RespErr(code)
 }
@@ -314,20 +361,50 @@ func c18CheckTx(r *c18Req, tx *wire.MsgTx, height int32, stage string,
 			tx.LockTime)
 	}
 
-	// Outputs: the required ones plus at most one change output.
-	if len(tx.TxOut) != nReq && len(tx.TxOut) != nReq+1 {
-		return fmt.Errorf(pfx+"%d outputs with %d required",
-			len(tx.TxOut), nReq)
+	// Outputs: the required ones, the aux sweeper's extra output exactly
+	// when the generated facts call for it (aux sweeper configured and any
+	// input with a blob), plus at most one change output.
+	nFixed := nReq
+	if r.hasExtra() {
+		nFixed++
+	}
+	if len(tx.TxOut) != nFixed && len(tx.TxOut) != nFixed+1 {
+		return fmt.Errorf(pfx+"%d outputs with %d required and extra "+
+			"output expected=%v (%s)", len(tx.TxOut), nReq,
+			r.hasExtra(), r.auxClass())
 	}
 	if len(tx.TxOut) == 0 {
 		return fmt.Errorf(pfx + "no outputs")
 	}
-	hasChange := len(tx.TxOut) == nReq+1
-	if hasChange {
-		ch := tx.TxOut[len(tx.TxOut)-1]
-		if string(ch.PkScript) != string(r.change.pk) {
+	hasChange := len(tx.TxOut) == nFixed+1
+	var nExtra, nChange int
+	for _, o := range tx.TxOut[nReq:] {
+		switch {
+		case string(o.PkScript) == string(c18ExtraPk):
+			nExtra++
+			if o.Value != r.extraVal {
+				return fmt.Errorf(pfx+"extra output pays %d, the "+
+					"aux sweeper asked for %d", o.Value,
+					r.extraVal)
+			}
+		case string(o.PkScript) == string(r.change.pk):
+			nChange++
+		default:
 			return fmt.Errorf(pfx + "change pays to a foreign script")
 		}
+	}
+	if r.hasExtra() && nExtra != 1 {
+		return fmt.Errorf(pfx+"%d extra outputs, the aux sweeper "+
+			"asked for one (%s, %d of %d inputs with a blob)", nExtra,
+			r.auxClass(), r.nBlob(), len(r.ins))
+	}
+	if !r.hasExtra() && nExtra != 0 {
+		return fmt.Errorf(pfx+"extra output without a blob input (%s)",
+			r.auxClass())
+	}
+	if (hasChange && nChange != 1) || (!hasChange && nChange != 0) {
+		return fmt.Errorf(pfx+"%d change outputs among %d outputs",
+			nChange, len(tx.TxOut))
 	}
 	var sumOut int64
 	for i, o := range tx.TxOut {
@@ -367,9 +444,10 @@ func c18CheckTx(r *c18Req, tx *wire.MsgTx, height int32, stage string,
 // Generator.
 
 func c18DrawReq(t *rapid.T, name string, serial *int, height int32,
-	relay int64, f2Known, roundKnown bool, st *vstats.Collector) *c18Req {
+	relay int64, f2Known, roundKnown bool, st *vstats.Collector,
+	aux *c18Aux) *c18Req {
 
-	r := &c18Req{name: name, live: true}
+	r := &c18Req{name: name, live: true, aux: aux != nil}
 	r.change = rapid.SampledFrom(c18Change).Draw(t, "change")
 
 	sharedLock := uint32(rapid.Int32Range(1, height).Draw(t, "sharedLock"))
@@ -418,10 +496,70 @@ func c18DrawReq(t *rapid.T, name string, serial *int, height int32,
 		r.ins = append(r.ins, topUp)
 	}
 
+	// Aux mode: which inputs are custom channel outputs (carry a blob).
+	// Three cells: no input / every input / some but not all (a plain
+	// input - wallet utxo, anchor, output of another channel - grouped with
+	// custom channel outputs; the wallet top-up of a tight set makes it
+	// mixed by itself).
+	if r.aux {
+		r.extraVal = 330
+		if rapid.Bool().Draw(t, "extraValBig") {
+			r.extraVal = rapid.Int64Range(330, 1000).Draw(t, "extraVal")
+		}
+		switch c := rapid.IntRange(0, 9).Draw(t, "blobCell"); {
+		case c < 2:
+			// No blob at all.
+		case c < 5:
+			// Every input that can carry one.
+			// Every input: wallet utxos / anchors drawn above
+			// become to_remote outputs of the custom channel (the
+			// tight set keeps its wallet top-up and is mixed).
+			for _, m := range r.ins {
+				if !m.blobEligible() && m != topUp {
+					m.kind = c18Kinds[4+rapid.IntRange(0, 1).Draw(
+						t, "allBlobKind")]
+					m.parent = nil
+				}
+				m.blob = m.blobEligible()
+			}
+		default:
+			// Mixed.
+			nb := 0
+			for _, m := range r.ins {
+				if m.blobEligible() && rapid.Bool().Draw(t, "blob") {
+					m.blob = true
+					nb++
+				}
+			}
+			if nb == 0 {
+				for _, m := range r.ins {
+					if m.blobEligible() {
+						m.blob = true
+						nb++
+
+						break
+					}
+				}
+			}
+			if nb == len(r.ins) && topUp == nil {
+				// A wallet utxo pulled in to pay the fees.
+				w := &c18Input{kind: c18Kinds[rapid.IntRange(
+					0, 2).Draw(t, "mixedWallet")]}
+				w.value = c18DrawValue(t, "mixedWalletValue")
+				r.ins = append(r.ins, w)
+			}
+		}
+	}
+
+	// The reference weight: inputs, required outputs, one change output
+	// and - from the generated facts alone - the extra output.
 	var err error
 	r.weight, err = c18Weight(r.ins, r.change.pk)
 	if err != nil {
 		t.Fatalf("weight: %v", err)
+	}
+	if r.hasExtra() {
+		r.weight += c18ExtraOutWeight
 	}
 
 	// Max fee rate: the configurable range is 100..10000 sat/vb.
@@ -459,6 +597,10 @@ func c18DrawReq(t *rapid.T, name string, serial *int, height int32,
 		topUp.value = c18FeeAt(rapid.Int64Range(relay, hi).Draw(
 			t, "tightRate"), r.weight) +
 			rapid.Int64Range(0, 800).Draw(t, "tightSlack")
+		if r.hasExtra() {
+			// The top-up also funds the extra output.
+			topUp.value += r.extraVal
+		}
 		if topUp.value < 1 {
 			topUp.value = 1
 		}
@@ -472,6 +614,16 @@ func c18DrawReq(t *rapid.T, name string, serial *int, height int32,
 		if m.kind.reqOut {
 			r.sumReq += m.reqValue
 		}
+		if aux != nil {
+			aux.setFact(m.op, c18AuxFact{
+				blob: m.blob, extraVal: r.extraVal,
+			})
+		}
+	}
+	if r.hasExtra() {
+		// The extra output's value is carved out of the inputs like a
+		// required output.
+		r.sumReq += r.extraVal
 	}
 	if rapid.IntRange(0, 7).Draw(t, "budgetVsValue") == 0 && topUp == nil {
 		// Around what the inputs can pay at all.
@@ -620,6 +772,14 @@ type c18Harness struct {
 func newC18Harness(est *c18Estimator, height int32,
 	f2Allowed bool) *c18Harness {
 
+	return newC18HarnessAux(est, height, f2Allowed, nil)
+}
+
+// newC18HarnessAux builds the publisher with the harness aux sweeper, if one
+// is given.
+func newC18HarnessAux(est *c18Estimator, height int32, f2Allowed bool,
+	aux *c18Aux) *c18Harness {
+
 	h := &c18Harness{est: est, height: height}
 	h.notifier = newC18Notifier()
 	h.wallet = &c18Wallet{byOp: make(map[wire.OutPoint]*c18Req)}
@@ -628,12 +788,17 @@ func newC18Harness(est *c18Estimator, height int32,
 		return c18CheckTx(r, tx, h.tp.currentHeight.Load(), stage,
 			f2Allowed)
 	}
-	h.tp = NewTxPublisher(TxPublisherConfig{
+	cfg := TxPublisherConfig{
 		Signer:    c18Signer{},
 		Wallet:    h.wallet,
 		Estimator: est,
 		Notifier:  h.notifier,
-	})
+	}
+	if aux != nil {
+		h.wallet.aux = aux
+		cfg.AuxSweeper = fn.Some[AuxSweeper](aux)
+	}
+	h.tp = NewTxPublisher(cfg)
 	h.tp.currentHeight.Store(height)
 
 	return h
@@ -867,7 +1032,13 @@ func TestVerifC18Publisher(t *testing.T) {
 
 		// When F2 is not excluded, the over-max publication is reported
 		// by the per-tx oracle; nothing is relaxed.
-		h := newC18Harness(est, height, false)
+		//
+		// A third of the cases run with an aux sweeper (custom channels).
+		var aux *c18Aux
+		if rapid.IntRange(0, 2).Draw(t, "auxMode") == 0 {
+			aux = newC18Aux()
+		}
+		h := newC18HarnessAux(est, height, false, aux)
 
 		serial := 0
 		nReq := 1
@@ -876,7 +1047,7 @@ func TestVerifC18Publisher(t *testing.T) {
 		}
 		for i := 0; i < nReq; i++ {
 			r := c18DrawReq(t, fmt.Sprintf("req%d", i), &serial, height,
-				relay, f2Known, roundKnown, st)
+				relay, f2Known, roundKnown, st, aux)
 			h.broadcast(r)
 		}
 		fail := func(err error) {
@@ -980,7 +1151,25 @@ func TestVerifC18Publisher(t *testing.T) {
 				reachedDl = true
 			}
 			fpParts = append(fpParts, r.budget, r.maxRate, r.deadline,
-				r.start, r.weight, r.sumIn, len(r.ins), r.mempool)
+				r.start, r.weight, r.sumIn, len(r.ins), r.mempool,
+				r.aux, r.nBlob(), r.extraVal)
+			labels = append(labels, r.auxClass())
+			if r.aux {
+				if r.rampChecked {
+					labels = append(labels, r.auxClass()+
+						":ramp_checked")
+				}
+				if len(r.pubs) > 0 {
+					labels = append(labels, r.auxClass()+
+						":published")
+				}
+				if c18BudgetRateFloor(r.budget, r.weight) <
+					r.maxRate {
+
+					labels = append(labels, r.auxClass()+
+						":budget_capped")
+				}
+			}
 			for _, e := range r.events {
 				labels = append(labels, "event:"+e.String())
 			}
@@ -1065,6 +1254,8 @@ func TestVerifC18Publisher(t *testing.T) {
 	})
 }
 
+// c18CountReq is the number of outputs of a transaction of the request that
+// has no change output: the required outputs and the aux sweeper's extra one.
 func c18CountReq(r *c18Req) int {
 	n := 0
 	for _, m := range r.ins {
@@ -1072,8 +1263,56 @@ func c18CountReq(r *c18Req) int {
 			n++
 		}
 	}
+	if r.hasExtra() {
+		n++
+	}
 
 	return n
+}
+
+// c18CheckAuxNote is the NotifyBroadcast clause of the AuxSweeper contract:
+// the transaction being published was announced to the aux sweeper together
+// with the request it was generated by, its true fee, and - in the request's
+// ExtraTxOut - the extra output the aux sweeper asked for (none if it asked
+// for none); the index map names the transaction index of every input that
+// commits to a required output.
+func c18CheckAuxNote(a *c18Aux, r *c18Req, tx *wire.MsgTx, fee int64) error {
+	pfx := fmt.Sprintf("aux: published tx of %s (%s): ", r.name,
+		r.auxClass())
+	n, ok := a.take(tx.TxHash())
+	if !ok {
+		return fmt.Errorf(pfx + "NotifyBroadcast was not called for it")
+	}
+	if n.fee != fee {
+		return fmt.Errorf(pfx+"NotifyBroadcast reports fee %d, tx pays "+
+			"%d", n.fee, fee)
+	}
+	if n.hasExtra != r.hasExtra() {
+		return fmt.Errorf(pfx+"request's ExtraTxOut set=%v, extra "+
+			"output expected=%v", n.hasExtra, r.hasExtra())
+	}
+	if n.hasExtra && (!n.isExtra || n.extra.Value != r.extraVal ||
+		string(n.extra.PkScript) != string(c18ExtraPk)) {
+
+		return fmt.Errorf(pfx+"request's ExtraTxOut is (%d, %x, "+
+			"extra=%v), not the aux sweeper's output", n.extra.Value,
+			n.extra.PkScript, n.isExtra)
+	}
+	for i, in := range tx.TxIn {
+		idx, ok := n.idx[in.PreviousOutPoint]
+		for _, m := range r.ins {
+			if m.op != in.PreviousOutPoint || !m.kind.reqOut {
+				continue
+			}
+			if !ok || idx != i {
+				return fmt.Errorf(pfx+"index map has %d (present "+
+					"%v) for the required-output input at %d",
+					idx, ok, i)
+			}
+		}
+	}
+
+	return nil
 }
 
 func c18ErrClass(err error) string {
